@@ -52,6 +52,9 @@ def gen(rng):
                 elif all(Fraction(float(dt.type(float(v)))) == v for v in vals): cands.append(name)
             except (OverflowError, ValueError): pass
         if cands: c['carrier'] = 'np:' + rng.choice(cands)
+    elif rng.random() < 0.08: c['carrier'] = 'decimal'; c.pop('objarr', None)
+    elif rng.random() < 0.12 and all(abs(v) < 2 ** 40 for v in vals):
+        c['carrier'] = 'fxp:%d:%d' % (rng.choice([0, 1, 3, 8]), rng.choice([0, 1, 2, 6])); c.pop('objarr', None)
     return c
 
 def run_cases(cases, res):
@@ -77,6 +80,15 @@ def run_cases(cases, res):
         if c['carrier'].startswith('np:'):
             dt = np.dtype(c['carrier'][3:])
             val = dt.type(nums[0]) if c['shape'] == 'scalar' else np.array(nums, dtype=dt)
+        if c['carrier'] == 'decimal':
+            # decimal.Decimal objects holding the dyadic values exactly (a scalar, or a list of them)
+            from decimal import Decimal
+            ds_ = [Decimal(v.numerator) / Decimal(v.denominator) for v in vals]
+            if all(Fraction(d) == v for d, v in zip(ds_, vals)): val = ds_[0] if c['shape'] == 'scalar' else ds_
+        if c['carrier'].startswith('fxp:'):
+            # the values handed over by ANOTHER fixed-point object that holds them exactly in a format wider than the minimal one
+            _, dw_, df_ = c['carrier'].split(':'); f0_ = nf0 + int(df_); w0_ = 1 + ni0 + f0_ + int(dw_)
+            val = fx.Fxp([float(v) for v in vals] if c['shape'] != 'scalar' else float(vals[0]), True, w0_, f0_)
         try:
             if c.get('prelude'):
                 # an earlier construction of the same values in the same process under a COARSE max_error (it may legitimately stop early):
